@@ -99,11 +99,11 @@ def main():
             rec = {'file': f, 'line': i + 1, 'op': op, 'old': old.strip()[:160], 'new': new.strip()[:160]}
             t0 = time.time()
             try:
-                rc, out = sh('cargo build --offline --quiet 2>&1 | tail -3', cwd=MREPO, env=env, timeout=600)
+                rc, out = sh('timeout -k 5 600 cargo build --offline --quiet 2>&1 | tail -3', cwd=MREPO, env=env, timeout=700)
                 if 'error' in out:
                     rec['status'] = 'does-not-compile'
                 else:
-                    rc, out = sh('cargo test --offline --lib 2>&1 | grep "test result" | head -1', cwd=MREPO, env=env, timeout=900)
+                    rc, out = sh('timeout -k 5 240 cargo test --offline --lib 2>&1 | grep "test result" | head -1', cwd=MREPO, env=env, timeout=400)
                     if '62 passed; 0 failed' not in out:
                         rec['status'] = 'killed-by-unit-tests'
                     else:
@@ -111,7 +111,7 @@ def main():
                         order = ORDER.get(f, []) + [p for p in ALL if p not in ORDER.get(f, [])]
                         rec['checks_run'] = []
                         for p in order:
-                            rc, out = sh('bin/check %s --tier quick 2>/dev/null' % p, cwd=MVERIF, env=cenv, timeout=3600)
+                            rc, out = sh('timeout -k 10 1500 bin/check %s --tier quick 2>/dev/null' % p, cwd=MVERIF, env=cenv, timeout=1600)
                             viol = [l_ for l_ in out.split('\n') if l_.startswith('VIOLATION')]
                             rec['checks_run'].append(p)
                             if viol:
